@@ -143,7 +143,7 @@ def run_tlc(module: str, cfg: str, workdir: Path, *, workers="auto", timeout=600
     cmd += list(extra)
     cmd.append(str(sd / f"{module}.tla"))
     e = dict(os.environ)
-    jto = "-XX:+UseParallelGC"
+    jto = "-XX:+UseParallelGC -Xmx" + os.environ.get("VERIF_TLC_HEAP", "6g")
     if depth_first:
         jto += " -Dtlc2.tool.queue.IStateQueue=StateDeque"
     e["JAVA_TOOL_OPTIONS"] = jto
@@ -268,10 +268,11 @@ def parse_sim_file(path: Path):
 # ----------------------------------------------------------------------------- findings / evidence
 
 def load_findings():
+    out = []
     p = VERIF / "known_findings.json"
-    if not p.exists():
-        return []
-    return json.loads(p.read_text())["findings"]
+    if p.exists():
+        out += json.loads(p.read_text())["findings"]
+    return out
 
 
 def _sig_match(pattern, sig) -> bool:
@@ -381,20 +382,23 @@ class Check:
                 "exhaustive": bool(self.exhaustive),
                 "tlc_runs": self.tlc_runs,
                 "known_findings_hit": self.known_hits,
+                "gemseo_imported_from": _gemseo_path(),
                 **_jsonable(self.extra),
             },
             "assumptions": self.assumptions,
             "wall_s": round(wall, 2),
             "violations": len(self.violations),
         }
-        (VERIF / "evidence").mkdir(exist_ok=True)
-        (VERIF / "evidence" / f"{self.pid}.json").write_text(json.dumps(ev, indent=1, default=str))
+        evdir = Path(os.environ.get("VERIF_EVIDENCE_DIR") or VERIF / "evidence")
+        evdir.mkdir(parents=True, exist_ok=True)
+        (evdir / f"{self.pid}.json").write_text(json.dumps(ev, indent=1, default=str))
         for f in self.findings:
             if self.known_hits.get(f["id"]):
                 print(f"KNOWN-FINDING: property={self.pid} {f['id']}: {f['what']} (hit {self.known_hits[f['id']]}x)")
         rc = 0
         if self.violations:
-            (VERIF / "replays").mkdir(exist_ok=True)
+            rdir = Path(os.environ.get("VERIF_REPLAY_DIR") or VERIF / "replays")
+            rdir.mkdir(parents=True, exist_ok=True)
             seen = set()
             n = 0
             for v in self.violations:
@@ -405,7 +409,7 @@ class Check:
                 n += 1
                 if n > self.max_report:
                     continue
-                path = VERIF / "replays" / f"{self.pid}-{n}.json"
+                path = rdir / f"{self.pid}-{n}.json"
                 path.write_text(json.dumps(_jsonable(dict(v, property=self.pid, tier=self.tier, seed=self.seed,
                                                           how=f"VERIF_TIER={self.tier} VERIF_SEED={self.seed} bin/check {self.pid}")),
                                            indent=1, default=str))
@@ -416,6 +420,15 @@ class Check:
               f"impl_traces={self.traces} violations={len(self.violations)} wall={wall:.1f}s")
         shutil.rmtree(self.work, ignore_errors=True)
         return rc
+
+
+def _gemseo_path():
+    try:
+        import gemseo
+
+        return str(Path(gemseo.__file__).parent)
+    except Exception:  # noqa: BLE001
+        return "?"
 
 
 def _jsonable(x):
